@@ -96,7 +96,7 @@ static std::vector<LD> hermRef(LD y, int nb)
 
 // Gauss-Hermite rule for the weight exp(-x^2/2)/sqrt(2 pi): nodes = eigenvalues of the Jacobi matrix
 // (off-diagonal sqrt(k)), polished by Newton on the orthonormal polynomial; Christoffel weights.
-struct GH
+struct GHRule
 {
   std::vector<LD> x, w;
   bool ok = false;
@@ -108,9 +108,9 @@ static void orthoH(LD x, int n, std::vector<LD>& h) // positive-leading orthonor
   if (n >= 1) h[1] = x;
   for (int k = 2; k <= n; k++) h[(size_t)k] = (x * h[(size_t)k - 1] - sqrtl((LD)(k - 1)) * h[(size_t)k - 2]) / sqrtl((LD)k);
 }
-static const GH& gaussHermite()
+static const GHRule& gaussHermite()
 {
-  static GH g;
+  static GHRule g;
   if (!g.x.empty()) return g;
   const int N = 80;
   Eigen::MatrixXd J = Eigen::MatrixXd::Zero(N, N);
@@ -197,14 +197,14 @@ static Sample genSample(int nmin, int nmaxCap, bool allowNAweights, bool positiv
   s.kind = G::pick({0, 0, 1, 1, 2, 3, 3, 4, 5});
   switch (s.kind)
   {
-    case 0: s.par = G::r(2, 15, 10); break;
+    case 0: s.par = G::i(2, 15) / 10.; break;
     case 1: s.par = G::pick({1., 2., 3., 5.}); break;
-    case 2: s.par = G::r(1, 5, 2); break;
+    case 2: s.par = G::i(2, 10) / 2.; break;
     case 3: s.par = G::pick({1., 3., 10.}); break;
     case 4: s.par = 1; break;
-    default: s.par = G::r(3, 12, 10); break;
+    default: s.par = G::i(3, 12) / 10.; break;
   }
-  if (positiveOnly && (s.kind == 2 || s.kind == 4 || s.kind == 3)) { s.kind = 5; s.par = G::r(3, 12, 10); }
+  if (positiveOnly && (s.kind == 2 || s.kind == 4 || s.kind == 3)) { s.kind = 5; s.par = G::i(3, 12) / 10.; }
   s.scl = G::pick({1., 1., 1e-3, 1e3, 7.5});
   s.loc = positiveOnly ? G::pick({0., 0., 1., 100.}) : G::pick({0., 0., 0., 10., -50., 1000.});
   int nmax = G::pick({20, 60, 200, 200, 2000});
@@ -231,7 +231,7 @@ static Sample genSample(int nmin, int nmaxCap, bool allowNAweights, bool positiv
     s.w.resize((size_t)n);
     for (int i = 0; i < n; i++)
     {
-      double w = G::r(1, 40, 10);
+      double w = G::i(1, 40) / 10.;
       if (s.wMode == 2 && i >= 3)
       {
         int c = G::i(0, 9);
@@ -275,3 +275,270 @@ static VectorDouble toVDi(const std::vector<int>& v)
   return r;
 }
 static std::string nClass(int n) { return n <= 20 ? "n:<=20" : (n <= 200 ? "n:21-200" : "n:>200"); }
+
+// =================================================================== (a) AnamHermite ========
+struct AnamHCase
+{
+  Sample s;
+  int nbpoly = 3;
+  int flagBound = 1;
+  int viaDb = 0;  // fit and transform through a Db (selection, weight locator, CalcAnamTransform)
+  int refit = 0;  // the same object is first fitted on a prefix of the data (state must not leak)
+  std::vector<int> sel; // used when viaDb
+  std::vector<double> t; // probe positions in (0,1)
+  template<class A> void io(A& a) { a("s", s)("nbpoly", nbpoly)("flagBound", flagBound)("viaDb", viaDb)("refit", refit)("sel", sel)("t", t); }
+};
+static AnamHCase genAnamH()
+{
+  AnamHCase c;
+  c.s = genSample(5, 2000, true, false);
+  c.nbpoly = G::pick({0, 0, 1}) == 1 ? G::i(20, 60) : G::i(2, 30);
+  c.flagBound = G::pct(75) ? 1 : 0;
+  c.viaDb = G::pct(30) ? 1 : 0;
+  c.refit = G::pct(8) ? 1 : 0;
+  if (c.viaDb && G::b())
+  {
+    c.sel.resize(c.s.z.size());
+    for (size_t i = 0; i < c.sel.size(); i++) c.sel[i] = (i < 3) ? 1 : (G::pct(75) ? 1 : 0);
+  }
+  int np = G::i(6, 16);
+  for (int k = 0; k < np; k++) c.t.push_back(G::u(0., 1.));
+  return c;
+}
+
+struct AnamFns
+{
+  const AnamContinuous* a;
+  double fwd(double y) const { VectorDouble v(1); v[0] = y; return a->gaussianToRawVector(v)[0]; }
+  double inv(double z) const { VectorDouble v(1); v[0] = z; return a->rawToGaussianVector(v)[0]; }
+};
+// is the forward function non-decreasing on [lo,hi] at a resolution of (hi-lo)/npts ?
+static bool fineMonotone(const AnamFns& f, double lo, double hi, double slack, int npts = 240)
+{
+  double prev = f.fwd(lo);
+  for (int k = 1; k <= npts; k++)
+  {
+    double z = f.fwd(lo + (hi - lo) * k / npts);
+    if (z < prev - slack) return false;
+    prev = std::max(prev, z);
+  }
+  return true;
+}
+
+static void runAnamH(const AnamHCase& c, Ctx& ctx)
+{
+  const int n = (int)c.s.z.size();
+  SampleInfo si = sampleInfo(c.s.z, c.s.w, c.viaDb ? c.sel : std::vector<int>());
+  ctx.label(fmt("kind:%d", c.s.kind));
+  ctx.label(nClass(n));
+  ctx.label(c.nbpoly >= 20 ? "order:>=20" : "order:<20");
+  ctx.label(c.flagBound ? "bound:on" : "bound:off");
+  if (c.viaDb) ctx.label("via:db"); else ctx.label("via:array");
+  if (si.nties) ctx.label("ties");
+  if (si.nna) ctx.label("na");
+  if (c.s.wMode) ctx.label("weights");
+  if (c.refit) ctx.label("refit");
+  if (si.ndistinct < 2) { ctx.inconclusive("fewer-than-2-distinct-values"); return; }
+  const std::string pre = c.refit ? "anamH:refit:" : "anamH:";
+
+  AnamHermite anam(c.nbpoly, c.flagBound != 0);
+  std::unique_ptr<Db> db;
+  if (c.refit)
+  {
+    // first fit: the data shifted and stretched (another distribution on the same object)
+    VectorDouble z0 = toVD(c.s.z);
+    for (int i = 0; i < n; i++)
+      if (!isNA(z0[i])) z0[i] = 3. * z0[i] + 11. * c.s.scl;
+    ctx.at("AnamHermite::fitFromArray(first)");
+    (void)anam.fitFromArray(z0, toVD(c.s.w));
+  }
+  int err;
+  if (c.viaDb)
+  {
+    db.reset(Db::create());
+    db->addColumns(toVD(c.s.z), "z", ELoc::Z, 0);
+    if (!c.s.w.empty()) db->addColumns(toVD(c.s.w), "w", ELoc::W, 0);
+    if (!c.sel.empty()) db->addColumns(toVDi(c.sel), "sel", ELoc::SEL, 0);
+    ctx.at("AAnam::fit");
+    err = anam.fit(db.get(), "z");
+  }
+  else
+  {
+    ctx.at("AnamHermite::fitFromArray");
+    err = anam.fitFromArray(toVD(c.s.z), toVD(c.s.w));
+  }
+  if (err != 0) { ctx.fail(pre + "fit-error", fmt("fit returned %d on %d active samples with %d distinct values", err, si.nact, si.ndistinct)); return; }
+
+  const double pymin = anam.getPymin(), pymax = anam.getPymax(), pzmin = anam.getPzmin(), pzmax = anam.getPzmax();
+  const double aymin = anam.getAymin(), aymax = anam.getAymax(), azmin = anam.getAzmin(), azmax = anam.getAzmax();
+  const double b[8] = {pymin, pymax, pzmin, pzmax, aymin, aymax, azmin, azmax};
+  for (double v : b)
+    if (isNA(v) || !std::isfinite(v))
+    {
+      ctx.fail(pre + "bounds-undefined", fmt("a reported bound is undefined: py[%g,%g] pz[%g,%g] ay[%g,%g] az[%g,%g]", pymin, pymax, pzmin, pzmax, aymin, aymax, azmin, azmax));
+      return;
+    }
+  // the interval on which the transform is claimed valid: practical interval, within the absolute one
+  const double ylo = std::max(pymin, aymin), yhi = std::min(pymax, aymax);
+  const double zlo = std::max(pzmin, azmin), zhi = std::min(pzmax, azmax);
+  if (!(yhi - ylo > 0.05) || !(zhi > zlo))
+  {
+    ctx.label("empty-interval");
+    ctx.inconclusive("reported-interval-empty");
+    return;
+  }
+  if (!(ylo <= 0. && 0. <= yhi)) ctx.label("zero-outside-py");
+  AnamFns f{&anam};
+  const double zscale = std::max(std::fabs(zlo), std::fabs(zhi));
+  const double rnd = 64 * EPS * zscale;
+  ctx.at("AnamContinuous::gaussianToRawVector");
+  const double dzmax = std::fabs(f.fwd(1.) - f.fwd(-1.)) / 100000.; // the method's own resolution in z
+  const double delta = 1.5e-7;                                       // ... and in y (dymax = 1e-7)
+
+  // (1) monotone on the method's grid (multiples of YPAS = 0.1 built as the library does) inside the interval
+  {
+    std::vector<double> grid;
+    double y = 0;
+    std::vector<double> neg;
+    for (int k = 0; k < 100; k++) { y -= 0.1; neg.push_back(y); }
+    for (int k = 99; k >= 0; k--) grid.push_back(neg[(size_t)k]);
+    grid.push_back(0.);
+    y = 0;
+    for (int k = 0; k < 100; k++) { y += 0.1; grid.push_back(y); }
+    VectorDouble yy;
+    for (double g : grid)
+      if (g >= ylo && g <= yhi) yy.push_back(g);
+    VectorDouble zz = anam.gaussianToRawVector(yy);
+    for (int k = 1; k < (int)yy.size(); k++)
+      if (zz[k] < zz[k - 1] - rnd)
+      {
+        ctx.fail(pre + "not-monotone", fmt("z(%.3f)=%.17g > z(%.3f)=%.17g inside the reported interval y[%g,%g]", yy[k - 1], zz[k - 1], yy[k], zz[k], ylo, yhi));
+        return;
+      }
+  }
+
+  // (2) raw -> gaussian -> raw
+  int checked = 0, flat = 0;
+  const double mz = std::max(1e-6 * (zhi - zlo), 2 * dzmax);
+  if (zhi - zlo > 4 * mz)
+  {
+    VectorDouble zp;
+    for (double t : c.t) zp.push_back(zlo + mz + t * (zhi - zlo - 2 * mz));
+    ctx.at("AnamContinuous::rawToGaussianVector");
+    VectorDouble yq = anam.rawToGaussianVector(zp);
+    ctx.at("AnamContinuous::gaussianToRawVector");
+    VectorDouble zq = anam.gaussianToRawVector(yq);
+    for (int k = 0; k < (int)zp.size(); k++)
+    {
+      double slope = std::max(0., f.fwd(yq[k] + delta) - f.fwd(yq[k] - delta));
+      double tol = dzmax + slope + rnd;
+      checked++;
+      if (!(std::fabs(zq[k] - zp[k]) <= tol))
+      {
+        if (!fineMonotone(f, std::max(-10., yq[k] - 0.2), std::min(10., yq[k] + 0.2), rnd)) { ctx.inconclusive("subgrid-nonmonotone"); return; }
+        ctx.fail(pre + "z-roundtrip", fmt("z=%.17g -> y=%.17g -> z=%.17g: |diff|=%g > tol=%g (dzmax=%g) interval z[%g,%g] y[%g,%g] nbpoly=%d", zp[k], yq[k], zq[k], std::fabs(zq[k] - zp[k]), tol, dzmax, zlo, zhi, ylo, yhi, c.nbpoly));
+        return;
+      }
+    }
+  }
+
+  // (3) gaussian -> raw -> gaussian
+  {
+    VectorDouble yp;
+    const double my = 1e-6;
+    for (double t : c.t) yp.push_back(ylo + my + t * (yhi - ylo - 2 * my));
+    VectorDouble zq = anam.gaussianToRawVector(yp);
+    ctx.at("AnamContinuous::rawToGaussianVector");
+    VectorDouble yq = anam.rawToGaussianVector(zq);
+    for (int k = 0; k < (int)yp.size(); k++)
+    {
+      // smallest eta such that every y'' with |z(y'') - z| <= dzmax lies within eta of y
+      double eta = -1;
+      for (double e : {1e-6, 1e-5, 1e-4, 1e-3, 1e-2, 1e-1, 0.5})
+      {
+        if (f.fwd(yp[k] + e) - zq[k] > 2 * dzmax + rnd && zq[k] - f.fwd(yp[k] - e) > 2 * dzmax + rnd) { eta = e; break; }
+      }
+      if (eta < 0) { flat++; continue; }
+      checked++;
+      if (!(std::fabs(yq[k] - yp[k]) <= eta + 2e-7))
+      {
+        double lo = std::max(-10., std::min(yp[k], yq[k]) - 0.2), hi = std::min(10., std::max(yp[k], yq[k]) + 0.2);
+        if (std::fabs(yq[k]) <= 10.5 && !fineMonotone(f, lo, hi, rnd)) { ctx.inconclusive("subgrid-nonmonotone"); return; }
+        ctx.fail(pre + "y-roundtrip", fmt("y=%.17g -> z=%.17g -> y=%.17g: |diff|=%g > eta=%g interval y[%g,%g] z[%g,%g] ay[%g,%g] nbpoly=%d", yp[k], zq[k], yq[k], std::fabs(yq[k] - yp[k]), eta, ylo, yhi, zlo, zhi, aymin, aymax, c.nbpoly));
+        return;
+      }
+    }
+  }
+  if (flat) ctx.label("flat-probe");
+
+  // (4) Db level: rawToGaussian then gaussianToRaw on the samples (CalcAnamTransform)
+  if (c.viaDb)
+  {
+    ctx.at("AAnam::rawToGaussian");
+    if (anam.rawToGaussian(db.get(), "z") != 0) { ctx.fail(pre + "db-z2y-error", "rawToGaussian(db) failed"); return; }
+    std::string yname = db->getLastName();
+    VectorDouble yv = db->getColumn(yname, false, false);
+    ctx.at("AAnam::gaussianToRaw");
+    if (anam.gaussianToRaw(db.get(), yname) != 0) { ctx.fail(pre + "db-y2z-error", "gaussianToRaw(db) failed"); return; }
+    VectorDouble zv = db->getColumn(db->getLastName(), false, false);
+    if ((int)zv.size() != n || (int)yv.size() != n) { ctx.fail(pre + "db-size", "transformed column has another length"); return; }
+    for (int i = 0; i < n; i++)
+    {
+      bool act = c.sel.empty() || c.sel[(size_t)i];
+      double z = c.s.z[(size_t)i];
+      if (!act || isNA(z)) continue;
+      if (isNA(yv[i]) || isNA(zv[i])) { ctx.fail(pre + "db-undefined", fmt("active defined sample %d is transformed to NA", i)); return; }
+      if (!(z > zlo + mz && z < zhi - mz)) continue;
+      double slope = std::max(0., f.fwd(yv[i] + delta) - f.fwd(yv[i] - delta));
+      double tol = dzmax + slope + rnd;
+      checked++;
+      if (!(std::fabs(zv[i] - z) <= tol))
+      {
+        if (!fineMonotone(f, std::max(-10., yv[i] - 0.2), std::min(10., yv[i] + 0.2), rnd)) { ctx.inconclusive("subgrid-nonmonotone"); return; }
+        ctx.fail(pre + "db-z-roundtrip", fmt("sample %d z=%.17g -> y=%.17g -> z=%.17g tol=%g", i, z, yv[i], zv[i], tol));
+        return;
+      }
+    }
+  }
+  ctx.nontrivial(checked > 0 && (si.nties > 0 || si.nna > 0 || c.nbpoly >= 20));
+  ctx.sig = Hash().add(c.s.kind).add(c.nbpoly).add(c.flagBound).add(c.viaDb).add(c.s.wMode).add(c.s.naMode).add(n).addq(c.s.z[0]).h;
+}
+VERIF_SUB(anamh, AnamHCase, genAnamH, runAnamH);
+
+// constant data (every active value equal): outside the round-trip statement (there is no interval),
+// but the fit must either refuse or report ordered finite bounds, without faulting.
+struct AnamDegCase
+{
+  int n = 1, nbpoly = 3;
+  double v = 1;
+  int naEvery = 0, withW = 0;
+  template<class A> void io(A& a) { a("n", n)("nbpoly", nbpoly)("v", v)("naEvery", naEvery)("withW", withW); }
+};
+static AnamDegCase genAnamDeg()
+{
+  AnamDegCase c;
+  c.n = G::sz(1, 40);
+  c.nbpoly = G::i(2, 30);
+  c.v = G::pick({0., 1., -3.5, 1e3});
+  c.naEvery = G::pick({0, 0, 3});
+  c.withW = G::b();
+  return c;
+}
+static void runAnamDeg(const AnamDegCase& c, Ctx& ctx)
+{
+  VectorDouble z(c.n), w;
+  for (int i = 0; i < c.n; i++) z[i] = (c.naEvery && i % c.naEvery == 1) ? NA : c.v;
+  if (c.withW) { w.resize(c.n); for (int i = 0; i < c.n; i++) w[i] = 1. + (i % 3); }
+  ctx.label(c.n == 1 ? "n:1" : "n:>1");
+  AnamHermite anam(c.nbpoly);
+  ctx.at("AnamHermite::fitFromArray(constant)");
+  int err = anam.fitFromArray(z, w);
+  ctx.nontrivial(true);
+  if (err != 0) { ctx.label("refused"); return; }
+  double b[4] = {anam.getPzmin(), anam.getPzmax(), anam.getPymin(), anam.getPymax()};
+  for (double x : b)
+    if (isNA(x) || !std::isfinite(x)) { ctx.fail("anamH:constant:bounds", fmt("constant data accepted but bounds undefined pz[%g,%g] py[%g,%g]", b[0], b[1], b[2], b[3])); return; }
+  if (std::fabs(anam.getMean() - c.v) > 1e-6 * (1 + std::fabs(c.v))) ctx.fail("anamH:constant:mean", fmt("constant data %g accepted, mean of the fitted transform = %.17g", c.v, anam.getMean()));
+}
+VERIF_SUB(anamh_degenerate, AnamDegCase, genAnamDeg, runAnamDeg);
+VERIF_MAIN()
